@@ -146,6 +146,45 @@ def run_one(rec, variant):
                 diffs.append('second-solve-res' if variant['repeat'] == 'same' else 'second-solve-other-names-res')
             elif variant['repeat'] == 'same' and list(rs_model['trace'][tpos].index) != exp_labels + exp_labels:
                 diffs.append('second-solve-labels')
+            elif variant['repeat'] == 'same' and len(seg) >= 4 and not diffs:
+                # a long history of one period (well over a hundred snapshots): every further solve from the same starting
+                # state appends the same segment again, for every traced variable
+                reps = 2
+                while reps * len(seg) <= 130:
+                    for i in range(nv):
+                        d[f'_X{i + 1}'][tpos] = rs.real(cfg['c0'][i], scale)
+                        src = tpos + cfg['offset']
+                        if cfg['offset'] != 0 and 0 <= src < L and src != tpos:
+                            d[f'_X{i + 1}'][src] = rs.real(cfg['src'][i], scale)
+                    d['_W'][tpos] = 20.25 + tpos
+                    d['_status'][tpos] = cfg['st0']
+                    d['_iterations'][tpos] = cfg['it0']
+                    d['_v_nB'] = d['_v_nA'] = d['_v_nP'] = 0
+                    d['_v_iters'] = []
+                    rn = call(rs_model, variant['entry'], cfg, opts, tpos, span, {'trace': second})
+                    reps += 1
+                    if (rn['kind'], rn['cause']) != (fin['res']['kind'], fin['res']['cause']):
+                        diffs.append('repeated-solve-res')
+                        break
+                Tn = rs_model['trace'][tpos]
+                if not diffs:
+                    if list(Tn.index) != exp_labels * reps:
+                        diffs.append('long-trace-labels')
+                    else:
+                        vals = np.asarray(Tn.values)
+                        if vals.shape != (len(names), len(seg) * reps):
+                            diffs.append('long-trace-shape')
+                        else:
+                            first = vals[:, :len(seg)]
+                            for r_ in range(1, reps):
+                                blk = vals[:, r_ * len(seg):(r_ + 1) * len(seg)]
+                                try:
+                                    eq = np.all((blk == first) | ((blk != blk) & (first != first)))
+                                except Exception:
+                                    eq = np.array_equal(blk, first)
+                                if not eq:
+                                    diffs.append('long-trace-snapshots')
+                                    break
     return diffs, obs
 
 
